@@ -35,7 +35,7 @@ func c11Exec(c evCase, x *pbt.Ctx) error {
 	if err != nil {
 		return err
 	}
-	defer h.n.Stop()
+	defer h.n.Close()
 	w := h.w
 	prevBest := 0
 	longToShort, tie, voteSwitch := false, false, false
